@@ -1197,8 +1197,9 @@ impl Translator {
 
                 let SolvedType::Function(_, out) = fn_branch_ty else { unreachable!() };
                 let SolvedType::Nominal(_control_flow, args) = &**out else { unreachable!() };
-                let output_ty = &args[1];
-                if output_ty == &SolvedType::Void {
+                // the payload type of this instance: `T` instantiated with void leaves nothing to keep
+                let output_ty = args[1].subst(mono);
+                if output_ty == SolvedType::Void {
                     self.emit(st, Instr::Pop);
                 }
             }
